@@ -21,7 +21,7 @@ int debug_perror_with_src (const char *func, const char *src, int line, const ch
 #ifndef VERIF_NO_XALLOC
 char *xalloc (size_t n)
 {
-#ifdef VERIF_XALLOC_STRIP
+#ifndef VERIF_XALLOC_PLAIN
   /* CBMC 6.11 types an allocation whose size constant comes from `sizeof (T[1]) * n` (neolith's CALLOCATE macro) as an array of
      T[1] and then loses writes through a T* under a symbolic index (DESIGN corrections 19); two xors build a fresh constant
      without the sizeof annotation, so the block is a plain byte array */
